@@ -4281,9 +4281,9 @@ fn parse_qualifiers<'a>(
                 ))
             }
         };
-        let (newarg, remainder, _) = get_arg(querystring)?;
+        let (newarg, remainder, _) = get_arg(remainder)?;
         if newarg == "RECURSIVE" {
-            let (newarg, remainder, _) = get_arg(querystring)?;
+            let (newarg, remainder, _) = get_arg(remainder)?;
             Ok((newarg, remainder, qualifier, AnnotationDepth::Max))
         } else {
             Ok((newarg, remainder, qualifier, AnnotationDepth::One))
@@ -4324,7 +4324,7 @@ fn parse_text_qualifiers<'a>(
                 ))
             }
         };
-        let (newarg, remainder, _) = get_arg(querystring)?;
+        let (newarg, remainder, _) = get_arg(remainder)?;
         Ok((newarg, remainder, qualifier, regex))
     } else {
         Ok((arg, querystring, TextMode::Exact, false))
